@@ -4,7 +4,8 @@ about them (Unrecognised / translated with identical programs / translated with 
 
     cd /verif && YV_REPO=/repo /venv/bin/python -m harness.c13_translator_cases
 
-Works on copies of $YV_REPO/yowsup/axolotl/store/sqlite in a temporary directory; exit status 1 if a case fails.
+Works on copies of $YV_REPO/yowsup in a temporary directory; exit status 1 if a case fails.  The `case` entries exercise the
+syntactic interpreter alone (tr.translate), the `mcase` entries both extractions and the decision between them (tr.extract).
 """
 import sys, os, shutil, tempfile, json
 from .translators import c13_store as tr
@@ -187,6 +188,106 @@ NCASES += 1; case("sql-rebound-in-if", P, [(RM, '''        q = "DELETE FROM prek
         cursor = self.dbConn.cursor()
         cursor.execute(q, (preKeyId,))
         self.dbConn.commit()''')], "UNREC")
+
+
+# ---------------------------------------------------------------- both extractions (tr.extract): needs an importable tree
+def mcase(name, edits, expect):
+    """expect: prefix of '<path> | same' / '<path> | different' / 'none'"""
+    global NCASES
+    NCASES += 1
+    d = os.path.join(TMP, "m-" + name)
+    shutil.copytree(os.path.join(REPO, "yowsup"), os.path.join(d, "yowsup"))
+    for f, pairs in edits.items():
+        p = os.path.join(d, S, f)
+        s = open(p).read()
+        for a, b in pairs:
+            assert a in s, (name, a)
+            s = s.replace(a, b)
+        open(p, "w").write(s)
+    detail = ""
+    try:
+        _, meta = tr.extract(d, TMP)
+        _, base = tr.translate(REPO)
+        cp = lambda m: {k: (tr._canon_prog(v) if k != "init" else (tr._canon_prog(v[0]), v[1], v[2])) for k, v in _progs(m).items()}
+        path = meta["extraction"]["path"]
+        got = "%s | %s" % (path.split(" (")[0] + (" (agree)" if "(agree)" in path else " (DISAGREE)" if "DISAGREE" in path else ""),
+                           "same" if cp(meta) == cp(base) else "different")
+        if meta["extraction"]["disagreements"]:
+            detail = json.dumps(meta["extraction"]["disagreements"][:1])[:200]
+    except tr.Unrecognised as e:
+        got, detail = "none", str(e)[max(0, str(e).find("measured")):][:230]
+    ok = got.startswith(expect)
+    if not ok:
+        FAILED.append(name)
+    print("%-30s %s -> %s  %s" % (name, "pass" if ok else "**** FAIL (expected %s)" % expect, got, detail))
+
+
+LOOP = '''        for prekeyId in prekeyIds:
+            q = "UPDATE prekeys SET sent_to_server = ? WHERE prekey_id = ?"
+            cursor = self.dbConn.cursor()
+            cursor.execute(q, (1, prekeyId))
+'''
+mcase("m-unchanged", {}, "syntactic+measured (agree) | same")
+mcase("m-with-conn", {P: [(RM, '''        with self.dbConn:
+            self.dbConn.execute("DELETE FROM prekeys WHERE prekey_id = ?", (preKeyId,))''')]}, "measured only | same")
+mcase("m-conditional-delete", {P: [(RM, '''        if self.containsPreKey(preKeyId):
+            self.dbConn.execute("DELETE FROM prekeys WHERE prekey_id = ?", (preKeyId,))
+            self.dbConn.commit()''')]}, "none")
+mcase("m-executemany", {P: [(LOOP, '''        q = "UPDATE prekeys SET sent_to_server = ? WHERE prekey_id = ?"
+        self.dbConn.cursor().executemany(q, [(1, i) for i in prekeyIds])
+''')]}, "none")
+mcase("m-module-function", {P: [(RM, "        _remove(self.dbConn, preKeyId)"),
+                                ("class LitePreKeyStore(PreKeyStore):", '''def _remove(conn, preKeyId):
+    conn.cursor().execute("DELETE FROM prekeys WHERE prekey_id = ?", (preKeyId,))
+    conn.commit()
+
+
+class LitePreKeyStore(PreKeyStore):''')]}, "measured only | same")
+mcase("m-raw-cursor", {P: [(RM, '''        import sqlite3
+        sqlite3.Cursor(self.dbConn).execute("DELETE FROM prekeys WHERE prekey_id = ?", (7,))
+        self.dbConn.commit()''')]}, "none")
+mcase("m-argument-converted", {P: [(RM, RM.replace("(preKeyId,)", "(str(preKeyId),)"))]}, "none")
+mcase("m-sql-from-constant", {P: [(RM, RM.replace('"DELETE FROM prekeys WHERE prekey_id = ?"',
+                                                  '"DELETE FROM %s WHERE prekey_id = ?" % "prekeys"'))]}, "measured only | same")
+mcase("m-sql-from-argument", {P: [(RM, RM.replace('"DELETE FROM prekeys WHERE prekey_id = ?"',
+                                                  '"DELETE FROM prekeys WHERE prekey_id = %s" % preKeyId').replace("(preKeyId,)", "()"))]}, "none")
+mcase("m-logging-decorator", {P: [("    def removePreKey(self, preKeyId):", "    @_logged\n    def removePreKey(self, preKeyId):"),
+                                  ("class LitePreKeyStore(PreKeyStore):", '''import functools
+
+
+def _logged(f):
+    @functools.wraps(f)
+    def g(*a, **k):
+        return f(*a, **k)
+    return g
+
+
+class LitePreKeyStore(PreKeyStore):''')]}, "measured only | same")
+mcase("m-patched-after-class", {"liteaxolotlstore.py": [
+    ("import sqlite3\n", "import sqlite3\nLitePreKeyStore.removePreKey = lambda self, preKeyId: None\n")]}, "syntactic+measured (DISAGREE)")
+mcase("m-commit-as-sql", {P: [(RM, RM.replace("self.dbConn.commit()", 'self.dbConn.execute("COMMIT")'))]}, "measured only | same")
+mcase("m-loop-commit-inside", {P: [('''            cursor.execute(q, (1, prekeyId))
+        self.dbConn.commit()''', '''            cursor.execute(q, (1, prekeyId))
+            self._done()
+
+    def _done(self):
+        with self.dbConn:
+            pass''')]}, "none")
+mcase("m-init-timestamp", {I: [('''        c.execute(q, (registrationId,
+                      pubKey,
+                      privKey))''', '''        import time
+        c.execute(q, (registrationId,
+                      pubKey,
+                      privKey))
+        c.execute("UPDATE identities SET timestamp = ? WHERE recipient_id = -1", (time.time_ns(),))''')]},
+      "syntactic+measured (DISAGREE)")
+mcase("m-handler-fallback", {"litesignedprekeystore.py": [('''        cursor.execute(q, (signedPreKeyId, buffer(record) if sys.version_info < (2,7) else record))
+        self.dbConn.commit()''', '''        try:
+            with self.dbConn:
+                cursor.execute(q, (signedPreKeyId, record))
+        except Exception:
+            with self.dbConn:
+                cursor.execute("UPDATE signed_prekeys SET record = ? WHERE prekey_id = ?", (record, signedPreKeyId))''')]}, "none")
 
 shutil.rmtree(TMP, ignore_errors=True)
 print("%d cases, %d failed" % (NCASES, len(FAILED)))
